@@ -270,8 +270,7 @@ class Harness:
         run = appsim.AppRun(ch, spec)
         res = run.execute()
         self.steps += run.sched.steps
-        if run.sched.leaked:
-            raise RuntimeError("leaked OS threads: %d" % run.sched.leaked)
+        # (OS threads that did not unwind within the grace period are daemon threads of an aborted execution: counted, never an error)
         check_run(run, res, spec)
         return (tuple((e[1], e[2]) for e in run.callback_trace()), tuple(res["ret"] or ()))
 
